@@ -17,6 +17,8 @@ FLOWS = ["flows/a.yaml", "flows/b.yaml", "flows/c.yaml"]
 GW, MX = "gateway_config.yaml", "metrics.yaml"
 REPORTED = set()       # witness classes already reproduced and reported in this run
 UNREPRODUCED = []      # rejections that no re-execution showed again
+NESTED_OLD = {"path_params/team/np.yaml": "p1", "flows/team/n.yaml": "v1", "quotas/team/nq.yaml": "q1"}
+NESTED_NEW = {"path_params/team/np.yaml": "p2", "flows/team/n.yaml": "v2", "quotas/team/nq.yaml": "q2"}
 P_EVENTS = ("reset", "probe", "call", "status", "fault", "reply")     # what the property observes
 
 
@@ -78,6 +80,9 @@ def rand_case(rng, thorough, endpoints):
         disk["quotas/q.yaml"] = "q1"
     if rng.random() < 0.3:
         disk["path_params/p.yaml"] = "p1"
+    for nf, tag in NESTED_OLD.items():                # files in sub-directories (path parameters are loaded recursively)
+        if rng.random() < 0.25:
+            disk[nf] = tag
     ep = rng.choice(endpoints)
     c = {"endpoint": ep, "method": "PUT", "disk": disk, "payload": {}, "badb64": []}
     x = rng.random()
@@ -97,6 +102,9 @@ def rand_case(rng, thorough, endpoints):
         pl["quotas/q.yaml"] = "q2"
     if rng.random() < 0.2:
         pl["path_params/p.yaml"] = "p2"
+    for nf, tag in NESTED_NEW.items():
+        if rng.random() < 0.2:
+            pl[nf] = tag
     if ep == "apply_flows" and not any(f in pl for f in FLOWS):
         pl[rng.choice(FLOWS)] = "v2"
     c["payload"] = pl
@@ -155,7 +163,7 @@ def histories_from_model(outs, maxn):
 
 
 # ------------------------------------------------------------------------------------------------ execution
-def run_batches(ctx, binary, batches, tag):
+def run_batches(ctx, binary, batches, tag, fname="trace.ndjson"):
     """one child process per batch (the engine reads its ports at package init; NewHandlingDataManager costs 3 s)."""
     def one(it):
         i, cases = it
@@ -170,7 +178,7 @@ def run_batches(ctx, binary, batches, tag):
                 break
         if p.returncode != 0:
             raise Broken("harness c08 failed rc=%d (%s batch %d)\nstderr: %s" % (p.returncode, tag, i, p.stderr[-3000:]))
-        return read_ndjson(os.path.join(d, "trace.ndjson"))
+        return read_ndjson(os.path.join(d, fname))
     return parallel(one, list(enumerate(batches)), n=min(8, len(batches)) or 1)
 
 
@@ -285,6 +293,85 @@ def judge(ctx, binary, traces, batches, tag, seen):
             ctx.violation(r[0], r[1])
 
 
+# ------------------------------------------------------------------------------------------------ overlapping updates
+CONC_KINDS = [{}, {"flows/a.yaml": "v2"}, {"flows/b.yaml": "v3"}, {"flows/a.yaml": "v2", "flows/b.yaml": "v3"},
+              {"flows/a.yaml": "bad"}, {"flows/b.yaml": "v3", "metrics.yaml": "mbad"}, {"flows/a.yaml": "v2", "metrics.yaml": "mbad"},
+              {"flows/c.yaml": "v2", "gateway_config.yaml": "gbad"}, {"flows/b.yaml": "v3", "path_params/team/np.yaml": "p2"}]
+
+
+def conc_from_model(o):
+    """a quiescent state printed by MC_Conc (EmitC): old tree, one update per process, the order in which the processes
+    were let go at their yield points"""
+    ups = []
+    for k in sorted(o["ups"]):
+        u = o["ups"][k]
+        ups.append({"key": k, "endpoint": u["endpoint"], "payload": dict(u["payload"]) if isinstance(u["payload"], dict) else {}})
+    return {"endpoint": "conc", "disk": {k: v for k, v in o["disk"].items() if v != "none"}, "updates": ups, "sched": list(o["sched"])}
+
+
+def rand_conc(rng):
+    """2-3 overlapping updates with a random order of release at the yield points"""
+    disk = {MX: "m1", "flows/a.yaml": "v1"}
+    if rng.random() < 0.5:
+        disk["flows/b.yaml"] = "v1"
+    if rng.random() < 0.3:
+        disk["path_params/team/np.yaml"] = "p1"
+    keys = ["A", "B", "C"][: rng.choice([2, 2, 3])]
+    ups = []
+    for k in keys:
+        ep = rng.choice(["configuration", "configuration", "apply_flows"])
+        pl = dict(rng.choice(CONC_KINDS))
+        if ep == "apply_flows":
+            pl.pop(MX, None)
+            if not any(f.startswith("flows/") and "/team/" not in f for f in pl):
+                pl["flows/a.yaml"] = "v2"
+        ups.append({"key": k, "endpoint": ep, "payload": pl})
+    return {"endpoint": "conc", "disk": disk, "updates": ups, "sched": [rng.choice(keys) for _ in range(rng.randint(6, 40))]}
+
+
+def conc_witness(rej, c):
+    h = rej["hist"]
+    return {"class": rej.get("invariant") or "rejected", "kind": "overlapping-updates", "n_updates": len(c["updates"]),
+            "codes": {e["u"]: e["code"] for e in h if e["ev"] == "reply"},
+            "endpoints": sorted({u["endpoint"] for u in c["updates"]})}
+
+
+def judge_conc(ctx, binary, traces, batches, tag):
+    """recorded overlapping updates -> TLC (CfgConcTrace, property monitor CfgConcP); a rejection is re-executed (the same
+    schedule in a fresh process) and judged again before it is reported"""
+    def one(it):
+        i, ev = it
+        return validate_history_trace(ctx, SPEC, "CfgConcTrace", ev, tag="%s%d" % (tag, i), max_rounds=4)
+    for bi, ((acc, rejected, rounds), ev) in enumerate(zip(parallel(one, list(enumerate(traces)), n=4), traces)):
+        ids = {k + 1: c for k, c in enumerate(batches[bi])}
+        ctx.cov["traces_validated_against_impl"] += acc
+        cfg, hs = split_histories(ev)
+        for h in hs:
+            ctx.cov["evaluations"] += sum(1 for e in h if e["ev"] == "call")
+            ctx.cov["overlapping_cases"] = ctx.cov.get("overlapping_cases", 0) + 1
+            if sum(1 for e in h if e["ev"] == "reply" and e["code"] != 226) >= 2:
+                ctx.cov["overlapping_cases_both_ran"] = ctx.cov.get("overlapping_cases_both_ran", 0) + 1
+        for rej in rejected:
+            c = ids[rej["hist"][0]["case"]]
+            w = conc_witness(rej, c)
+            sig = json.dumps([w["class"], w["n_updates"], w["endpoints"]])
+            if sig in REPORTED or len(ctx.violations) >= 6:
+                continue
+            REPORTED.add(sig)
+            found = None
+            for attempt in range(4):
+                t2 = run_batches(ctx, binary, [[clean(c)]], "%s-repro" % tag, fname="trace-conc.ndjson")[0]
+                a2, r2, _ = validate_history_trace(ctx, SPEC, "CfgConcTrace", t2, tag="%s-repro" % tag, max_rounds=1)
+                if r2:
+                    found = (conc_witness(r2[0], c), t2)
+                    break
+            if found is None:
+                UNREPRODUCED.append(w)
+                ctx.log("rejection not reproduced: %s" % json.dumps(w))
+                continue
+            ctx.violation(found[0], {"cases": [clean(c)], "conc": True, "trace": found[1], "clause": found[0]["class"]})
+
+
 def drift_check(ctx, traces, batches, tag, stats):
     """bind the implementation-shaped model to the code: every recorded event sequence (sequential cases) must be a
     behaviour of CfgUpdateI.  A mismatch is model drift (DESIGN §2.5), never a violation."""
@@ -328,7 +415,8 @@ def run(ctx):
     ctx.assumptions += ["one injected failure per update (the n-th occurrence of a fault point fails once)",
                         "a failure injected into the roll-back itself (after the handler signalled failure) exempts the case",
                         "fs.store fails after the old file was removed and before the new one is created",
-                        "updates are issued one at a time (the handler's TryLock is not raced)",
+                        "overlapping updates are interleaved at the yield points (start, before each file operation, hdm.initialized, "
+                        "hdm.published), not inside the code between two of them; they carry no injected failure",
                         "in a history every update is judged against the tree its predecessor left; a history ends after an exempt update"]
     endpoints = ["configuration", "configuration", "apply_flows"]
 
@@ -340,17 +428,24 @@ def run(ctx):
             return ctx.tlc_exhaustive(sd, "MC_C08", arg, timeout=1500, heap="3g", workers=(8 if T else 4),
                                       label="I=>P, all cases x all interleavings of probes")
         if kind == "nv":
-            return ctx.tlc(sd, "MC_C08", "MC_nv_%s.cfg" % arg, workers=2, timeout=600, heap="1g",
+            return ctx.tlc(sd, "MC_C08", "MC_nv_%s.cfg" % arg, workers=1, timeout=600, heap="1g",
                            label="non-vacuity: %s must be refuted" % arg)
         if kind == "rand":     # the seeded random cases do not depend on TLC's output: record them meanwhile
             return run_batches(ctx, binary, arg, "rand")
+        if kind == "cmc":      # overlapping updates: the lock as an explicit variable, every interleaving at the yield points
+            return ctx.tlc_exhaustive(sd, "MC_Conc", arg, timeout=900, heap="2g", workers=4, label="overlapping updates: I=>P")
+        if kind == "cnv":
+            return ctx.tlc(sd, "MC_Conc", arg, workers=1, timeout=600, heap="1g", label="non-vacuity: UnlockBeforeReload must be refuted")
+        if kind == "csim":     # schedules of overlapping updates: walks of the model (arg[0]) through the yield points
+            return ctx.tlc(sd, "MC_Conc", arg[0], workers=1, timeout=600, heap="2g", simulate="num=%d" % arg[1], depth=300,
+                           extra=["-seed", str(ctx.seed)], label="schedule generation (walks)")
         if kind == "sim":      # histories: random walks of the model through 2..4 consecutive updates
             cfgname, num = arg
             return ctx.tlc(sd, "GenC08", cfgname, workers=1, timeout=600, heap="2g", simulate="num=%d" % num, depth=600,
                            extra=["-seed", str(ctx.seed)], label="history generation (walks)")
-        return ctx.tlc(sd, "GenC08", arg, workers=4, timeout=900, heap="3g", label="case generation")
+        return ctx.tlc(sd, "GenC08", arg, workers=(4 if T else 2), timeout=900, heap="3g", label="case generation")
     flags = ["RestoreWrongDirection", "PublishBeforeInit", "ContinueAfter405", "ApplyNoBackup", "MetricsToDefaultPath",
-             "NoReloadAfterRestore", "StaleBackup"]
+             "NoReloadAfterRestore", "StaleBackup", "BackupNotRecursive"]
     nr, nrh = (100, 50) if not T else (3000, 1200)
     rc = [rand_case(ctx.rng, T, endpoints) for _ in range(nr)]
     rh = [rand_history(ctx.rng, T, endpoints) for _ in range(nrh)]
@@ -358,7 +453,10 @@ def run(ctx):
     jobs = [("mc", "MC_quick.cfg" if not T else "MC_thorough.cfg"), ("mc", "MC_hist.cfg" if not T else "MC_hist3.cfg")] + \
            [("nv", f) for f in flags] + \
            [("rand", rbatches), ("gen", "GenC08.cfg" if not T else "GenC08_full.cfg"),
-            ("sim", ("GenC08_hist.cfg", 120) if not T else ("GenC08_hist4.cfg", 500))]
+            ("sim", ("GenC08_hist.cfg", 120) if not T else ("GenC08_hist4.cfg", 500)),
+            ("mc", "MC_nested.cfg" if not T else "MC_nested_full.cfg"), ("gen", "GenC08_nested.cfg"),
+            ("cmc", "MC_Conc.cfg" if not T else "MC_Conc3.cfg"), ("cnv", "MC_Conc_nv.cfg"),
+            ("csim", ("GenConc.cfg", 40 if not T else 400)), ("csim", ("GenConc_dev.cfg", 300 if not T else 3000))]
     if T:
         jobs += [("mc", "MC_thorough3.cfg"), ("gen", "GenC08_mx.cfg"), ("gen", "GenC08_thorough.cfg"), ("gen", "GenC08_hist.cfg")]
     res = parallel(stage, jobs, n=len(jobs))
@@ -366,7 +464,9 @@ def run(ctx):
     for (kind, arg), r in zip(jobs, res):
         if kind == "nv" and r.violated is None:
             raise Broken("model cannot tell deviation %s from the property (vacuous refinement check): %r" % (arg, r))
-        if kind in ("gen", "sim") and not r.ok:
+        if kind == "cnv" and r.violated is None:
+            raise Broken("overlapping-updates model cannot tell an early unlock from the property: %r" % r)
+        if kind in ("gen", "sim", "csim") and not r.ok:
             raise Broken("case generation %s failed: %r" % (arg, r))
     rtraces = byjob[("rand", "batches")]
     g = byjob[("gen", "GenC08.cfg" if not T else "GenC08_full.cfg")]
@@ -386,18 +486,21 @@ def run(ctx):
     ngen = 260 if not T else len(gen)
     sel = gen[:ngen]
     ctx.cov["exhaustive"] = bool(T)       # thorough: every case of the two-flow instances (GenC08_full.cfg, GenC08_mx.cfg) is replayed
-    if T:      # plus every case of the instance without a user metrics file, plus a seeded sample of the three-flow instance
-        for cfgname, take in (("GenC08_mx.cfg", None), ("GenC08_thorough.cfg", 4000)):
-            cs = {}
-            for o in tlc_vh_lines(byjob[("gen", cfgname)].out):
-                c = from_model(o)
-                if (c.get("fault") or {}).get("point") != "health":
-                    cs.setdefault(case_key(c), c)
-                    predicted.setdefault(case_key(c), (c, []))[1].append(o)
-            extra = [cs[k] for k in sorted(cs)]
-            rng.shuffle(extra)
-            sel = sel + (extra if take is None else extra[:take])
-            ctx.log("%s: %d cases generated, %d replayed" % (cfgname, len(cs), len(extra) if take is None else min(take, len(extra))))
+    # files in sub-directories (TLC-enumerated instance with a nested path-parameter and a nested flow file); thorough: plus every
+    # case of the instance without a user metrics file, plus a seeded sample of the three-flow instance
+    for cfgname, take in [("GenC08_nested.cfg", 80 if not T else 3000)] + ([("GenC08_mx.cfg", None), ("GenC08_thorough.cfg", 4000)] if T else []):
+        cs = {}
+        for o in tlc_vh_lines(byjob[("gen", cfgname)].out):
+            c = from_model(o)
+            if (c.get("fault") or {}).get("point") != "health":
+                cs.setdefault(case_key(c), c)
+                predicted.setdefault(case_key(c), (c, []))[1].append(o)
+        extra = [cs[k] for k in sorted(cs)]
+        if cfgname == "GenC08_nested.cfg":        # only the cases that touch a nested file
+            extra = [c for c in extra if any("/team/" in k for k in list(c["disk"]) + list(c["payload"]))]
+        rng.shuffle(extra)
+        sel = sel + (extra if take is None else extra[:take])
+        ctx.log("%s: %d cases generated, %d replayed" % (cfgname, len(cs), len(extra) if take is None else min(take, len(extra))))
     # histories of updates on one gateway (tree, engine and handler state carried over), generated by TLC
     mh = histories_from_model(tlc_vh_lines(byjob[("sim", "GenC08_hist.cfg" if not T else "GenC08_hist4.cfg")].out), 4)
     if T:
@@ -415,7 +518,27 @@ def run(ctx):
         len(outs), len(predicted), len(sel), len(rc), 1 if not T else 4))
     nb = 7 if not T else 14
     batches = batches_of(sel + mh, nb) + batches_of(health[: (1 if not T else 4)], 1)
-    traces = run_batches(ctx, binary, batches, "gen")
+    # overlapping updates: schedules from walks of the concurrent model (the code's and the one with the early unlock - its
+    # violating walks are directed schedules), plus seeded random ones
+    def uniq(cases):
+        seen_, out = set(), []
+        for c in cases:
+            k = json.dumps(c, sort_keys=True)
+            if k not in seen_:
+                seen_.add(k); out.append(c)
+        return out
+    okw = uniq([conc_from_model(o) for o in tlc_vh_lines(byjob[("csim", "GenConc.cfg")].out)])
+    devo = tlc_vh_lines(byjob[("csim", "GenConc_dev.cfg")].out)
+    devw = uniq([conc_from_model(o) for o in devo if o["violated"]]) + uniq([conc_from_model(o) for o in devo if not o["violated"]])
+    n1, n2, n3 = (20, 30, 25) if not T else (300, 600, 500)
+    if len(devw) < 10 or not any(o["violated"] for o in devo):
+        raise Broken("schedule generation for overlapping updates produced %d walks" % len(devw))
+    cc = okw[:n1] + devw[:n2] + [rand_conc(ctx.rng) for _ in range(n3)]
+    cbatches = [cc[i::(2 if not T else 6)] for i in range(2 if not T else 6)]
+    ctx.log("overlapping updates: %d cases (%d model walks, %d walks of the early-unlock model, %d random)" % (
+        len(cc), len(okw[:n1]), len(devw[:n2]), n3))
+    traces, ctraces = parallel(lambda f: f(), [lambda: run_batches(ctx, binary, batches, "gen"),
+                                               lambda: run_batches(ctx, binary, cbatches, "conc", fname="trace-conc.ndjson")], n=2)
     batches, traces = batches + rbatches, traces + rtraces
     ctx.log("recorded %d cases in %d processes" % (sum(len(b) for b in batches), len(batches)))
     ctx.sample({"kind": "generated-case", "case": clean(sel[0]),
@@ -424,7 +547,8 @@ def run(ctx):
     seen = set()
     drift = {"accepted": 0, "rejected": 0, "examples": []}
     parallel(lambda f: f(), [lambda: judge(ctx, binary, traces, batches, "p", seen),
-                             lambda: drift_check(ctx, traces, batches, "i", drift)], n=2)
+                             lambda: drift_check(ctx, traces, batches, "i", drift),
+                             lambda: judge_conc(ctx, binary, ctraces, cbatches, "c")], n=3)
     ctx.notes.append("implementation-shaped model vs code: %d recorded cases accepted by CfgTraceI, %d not explained" %
                      (drift["accepted"], drift["rejected"]))
     if drift["rejected"]:
@@ -538,6 +662,20 @@ def replay(ctx, path):
     binary = ctx.build_harness("c08")
     rp = obj["replay"]
     seq = [dict(c) for c in (rp["cases"] if "cases" in rp else [rp["case"]])]
+    if rp.get("conc"):
+        for attempt in range(6):
+            t = run_batches(ctx, binary, [[dict(c) for c in seq]], "replay", fname="trace-conc.ndjson")[0]
+            acc, rej, _ = validate_history_trace(ctx, SPEC, "CfgConcTrace", t, tag="replay", max_rounds=1)
+            if rej:
+                break
+        for e in t:
+            print(json.dumps(e))
+        if rej:
+            print("VIOLATION property=C08 replay=%s" % path)
+            print("   clause %s violated (overlapping updates)" % rej[0].get("invariant"))
+            return 1
+        print("replay accepted by the specification")
+        return 0
     for attempt in range(6):           # Go's map iteration order may matter
         t = run_batches(ctx, binary, [[dict(c) for c in seq]], "replay")[0]
         acc, rej, _ = validate_history_trace(ctx, SPEC, "CfgTraceP", project_p(t), tag="replay", max_rounds=1)
